@@ -87,12 +87,20 @@ Fixpoint stale_names (c : path) (qs : list path) (k : list name -> P) : P :=
                 | _ => if is_safe x then stale_names c r (fun l => k (x :: l)) else stale_names c r k
                 end)
   end.
+(* os.scandir of a cache folder that is missing (its creation just failed: c5ee502 goes on with the parsed
+   content and still cleans) raises: the request ends with an error *)
 Definition clean_item_cache (lay : layout) (c : path) : P :=
-  let cd := cache_dir lay CItem c in Ls cd (fun qs => stale_names c qs (fun l => clean_list cd l false)).
+  let cd := cache_dir lay CItem c in
+  Read cd (fun n => match n with
+                    | Some D => Ls cd (fun qs => stale_names c qs (fun l => clean_list cd l false))
+                    | _ => Raise (EOS ENOENT)
+                    end).
 
 (* _get for each name of xs (discover of an item, get_all, has_uid): a cache miss stores the entry and,
-   once per collection object, cleans the item cache.  skip_broken_item (default): an exception while
-   storing the entry makes _get return None. *)
+   once per collection object, cleans the item cache.  An OSError while the entry is stored is logged and
+   the parsed content is used (radicale c5ee502); a failing fsync is a RuntimeError and ends the request. *)
+Definition os_ignored (e : exn errno) : P := match e with EOS _ => Ret | _ => Raise e end.
+
 Fixpoint get_many (lay : layout) (c : path) (xs : list name) (cleaned : bool) : P :=
   match xs with
   | [] => Ret
@@ -104,29 +112,19 @@ Fixpoint get_many (lay : layout) (c : path) (xs : list name) (cleaned : bool) : 
               match cn with
               | Some (F cv) =>
                   if N.eqb cv (cache_code v) then get_many lay c r cleaned
-                  else seqs [Catch (store_cache lay c x v) (fun _ => Ret);
+                  else seqs [Catch (store_cache lay c x v) os_ignored;
                              (if cleaned then Ret else clean_item_cache lay c); get_many lay c r true]
-              | _ => seqs [Catch (store_cache lay c x v) (fun _ => Ret);
+              | _ => seqs [Catch (store_cache lay c x v) os_ignored;
                            (if cleaned then Ret else clean_item_cache lay c); get_many lay c r true]
               end)
         | _ => get_many lay c r cleaned
         end)
   end.
 
-(* discover(path) of the item a request targets: when storing the cache entry fails, _get returns None
-   (skip_broken_item) and the handler answers "not found" / "conflict" without calling the operation *)
-Definition get_target (lay : layout) (c : path) (x : name) : P :=
-  Read (c ++ [x]) (fun n =>
-    match n with
-    | Some (F v) =>
-        Read (cache_dir lay CItem c ++ [x]) (fun cn =>
-          let miss := Seq (Catch (store_cache lay c x v) (fun _ => Raise EVal)) (clean_item_cache lay c) in
-          match cn with
-          | Some (F cv) => if N.eqb cv (cache_code v) then Ret else miss
-          | _ => miss
-          end)
-    | _ => Ret
-    end).
+(* discover(path) of the item a request targets: one _get.  An I/O error while the cache entry is stored is
+   logged and the item is served from the parsed content (radicale c5ee502; before that fix _get returned
+   None -- "skip broken item" -- and the handler took the item for absent). *)
+Definition get_target (lay : layout) (c : path) (x : name) : P := get_many lay c [x] false.
 
 (* _update_history_etag(href x, item with content ov) *)
 Definition update_history (lay : layout) (c : path) (x : name) (ov : option N) : P :=
@@ -299,10 +297,7 @@ Definition request_prog (lay : layout) (r : request) : P :=
       seqs [get_target lay c h;
             Read (c' ++ [h']) (fun n =>
               match n with
-              | Some (F _) =>
-                  (* a destination item that cannot be loaded counts as absent: within one collection the move
-                     goes on, across collections has_uid then finds its UID -> 409 *)
-                  if path_eqb c c' then get_many lay c' [h'] false else get_target lay c' h'
+              | Some (F _) => get_target lay c' h'      (* the destination item is loaded (Overwrite, UID check) *)
               | _ => if path_eqb c c' then Ret else get_many lay c' names' false
               end);
             move lay c h c' h' v exp exp']
